@@ -313,6 +313,16 @@ def exprLeap (v : Value) : Prop :=
   onSome (shown v).2.1 fun t => 1000000000 ≤ t.frac → t.secs % 60 = 59
 instance (v : Value) : Decidable (exprLeap v) := by unfold exprLeap; exact inferInstance
 
+/-- the leap clause of `expressible`: it concerns formats that print the wall clock's second.  A
+timestamp-only format (`stampOnly`: `%s`, `%s %z` …) prints the instant's second count, in which a leap
+second is its second :59 whatever the offset does to the local reading (a UTC leap second 23:59:60 seen at
+`+00:00:30` reads locally `00:00:29` + leap fraction — no public constructor builds that local time, but
+`DateTime` shows it): such a value is expressible by a timestamp-only format, and
+`truncate_to_precision` predicts the instant at whole seconds for it (second review, G6) -/
+def exprLeapFor (is : List Item) (v : Value) : Prop := stampOnly (carries is) = true ∨ exprLeap v
+instance (is : List Item) (v : Value) : Decidable (exprLeapFor is v) := by
+  unfold exprLeapFor; exact inferInstance
+
 /-- the printed (rounded) offset must itself be an offset -/
 def exprOffset (is : List Item) (v : Value) : Prop :=
   onSome (shown v).2.2 fun o =>
@@ -354,7 +364,7 @@ instance (is : List Item) (v : Value) : Decidable (exprFrac is v) := by
 
 /-- the value lies in the range the format's reader widths can carry -/
 def expressible (is : List Item) (v : Value) : Prop :=
-  exprYears is v ∧ exprLeap v ∧ exprOffset is v ∧ exprStamp is v ∧ exprFrac is v
+  exprYears is v ∧ exprLeapFor is v ∧ exprOffset is v ∧ exprStamp is v ∧ exprFrac is v
 instance (is : List Item) (v : Value) : Decidable (expressible is v) := by
   unfold expressible; exact inferInstance
 
